@@ -73,80 +73,86 @@ def support(model, rep, rule):
       'attribute': frozenset([('rec', 'parent')]),
       'subscript': frozenset([('rec', 'parent'), ('rec', 'index')]),
   }
-  seen = {}
-  for p in g.paths(limit=500, ends={g.exit}):
-    env = {}
-    cond = {}
-    ret = None
-    for idx, (i, lab) in enumerate(p):
-      k, a = g.nodes[i]
-      if a is None:
-        continue
-      if k == 'test' and idx + 1 < len(p):
-        nxt = p[idx + 1][1]
-        t = a
-        neg = False
-        if isinstance(t, ast.UnaryOp) and isinstance(t.op, ast.Not):
-          t, neg = t.operand, True
-        txt = core.norm(t)
-        val = (nxt == 'T') != neg
-        if txt in ('self.has_attr()', 'self._has_attr'):
-          cond['attr'] = val
-        elif txt in ('self.has_subscript()', 'self._has_subscript'):
-          cond['sub'] = val
-        else:
-          cond['?' + txt] = val
-      elif k == 'stmt':
-        if isinstance(a, ast.Assign) and len(a.targets) == 1 and isinstance(
-            a.targets[0], ast.Name):
-          env[a.targets[0].id] = _atoms(a.value, env)
-        elif isinstance(a, ast.AugAssign) and isinstance(a.target, ast.Name) and \
-            isinstance(a.op, ast.BitOr):
-          env[a.target.id] = env.get(a.target.id, frozenset()) | _atoms(a.value, env)
-        elif isinstance(a, ast.Expr) and isinstance(a.value, ast.Call) and \
-            isinstance(a.value.func, ast.Attribute) and isinstance(
-                a.value.func.value, ast.Name) and a.value.func.value.id in env \
-            and len(a.value.args) == 1:
-          nm = a.value.func.value.id
-          arg = a.value.args[0]
-          if a.value.func.attr == 'update':
-            env[nm] = env[nm] | _atoms(arg, env)
-          elif a.value.func.attr == 'add':
-            c = _comp(arg)
-            env[nm] = env[nm] | frozenset([('elem', c) if c else ('raw', core.norm(arg))])
-          else:
-            env[nm] = env[nm] | frozenset([('raw', core.norm(a))])
-      elif k == 'return' and a.value is not None:
-        ret = _atoms(a.value, env)
-    unknown = [c for c in cond if c.startswith('?')]
-    if cond.get('attr') is True:
-      case = 'attribute'
-    elif cond.get('attr') is False and cond.get('sub') is True:
-      case = 'subscript'
-    elif cond.get('attr') is False and cond.get('sub') is False:
-      case = 'simple'
-    elif cond.get('sub') is True and 'attr' not in cond:
-      case = 'subscript'
-    else:
-      case = 'unclassified'
-    ok = case in want and ret == want[case] and not unknown
-    prev = seen.get(case)
-    seen[case] = (ok if prev is None else (prev[0] and ok), ret)
-  for case in ('simple', 'attribute', 'subscript', 'unclassified'):
-    if case not in seen:
-      if case != 'unclassified':
-        rep.violation(rule, '%s:support(%s)' % (fi.site, case),
-                      'no path of support_set handles %s names' % case,
-                      line=fi.node.lineno)
-      continue
-    ok, ret = seen[case]
+  from sa import formula
+
+  def flag_formula(e, flags):
+    def atom_of(x):
+      t = core.norm(x)
+      if t in ('self.has_attr()', 'self._has_attr'):
+        return 'ATTR'
+      if t in ('self.has_subscript()', 'self._has_subscript'):
+        return 'SUB'
+      if isinstance(x, ast.Name) and x.id in flags:
+        return flags[x.id]
+      return None
+    return formula.bool_formula(e, atom_of)
+
+  paths = list(g.paths(limit=500, ends={g.exit}))
+  # evaluated for the three kinds of name (a name is never both an attribute
+  # and a subscript)
+  for case, row in (('simple', {'ATTR': False, 'SUB': False}),
+                    ('attribute', {'ATTR': True, 'SUB': False}),
+                    ('subscript', {'ATTR': False, 'SUB': True})):
+    results = []
+    undecided = []
+    for p in paths:
+      env = {}
+      flags = {}
+      ret = None
+      feasible = True
+      for idx, (i, lab) in enumerate(p):
+        k, a = g.nodes[i]
+        if a is None:
+          continue
+        if k == 'test' and idx + 1 < len(p):
+          nxt = p[idx + 1][1]
+          if nxt not in ('T', 'F'):
+            continue
+          f = flag_formula(a, flags)
+          if not f.atoms <= {'ATTR', 'SUB'}:
+            undecided.append(core.norm(a))
+            feasible = False
+            break
+          if f.fn(row) != (nxt == 'T'):
+            feasible = False
+            break
+        elif k == 'stmt':
+          if isinstance(a, ast.Assign) and len(a.targets) == 1 and isinstance(
+              a.targets[0], ast.Name):
+            ff_ = flag_formula(a.value, flags)
+            if ff_.atoms and ff_.atoms <= {'ATTR', 'SUB'}:
+              flags[a.targets[0].id] = ff_
+              continue
+            env[a.targets[0].id] = _atoms(a.value, env)
+          elif isinstance(a, ast.AugAssign) and isinstance(a.target, ast.Name) and \
+              isinstance(a.op, ast.BitOr):
+            env[a.target.id] = env.get(a.target.id, frozenset()) | _atoms(a.value, env)
+          elif isinstance(a, ast.Expr) and isinstance(a.value, ast.Call) and \
+              isinstance(a.value.func, ast.Attribute) and isinstance(
+                  a.value.func.value, ast.Name) and a.value.func.value.id in env \
+              and len(a.value.args) == 1:
+            nm = a.value.func.value.id
+            arg = a.value.args[0]
+            if a.value.func.attr == 'update':
+              env[nm] = env[nm] | _atoms(arg, env)
+            elif a.value.func.attr == 'add':
+              c = _comp(arg)
+              env[nm] = env[nm] | frozenset([('elem', c) if c else ('raw', core.norm(arg))])
+            else:
+              env[nm] = env[nm] | frozenset([('raw', core.norm(a))])
+        elif k == 'return' and a.value is not None:
+          ret = _atoms(a.value, env)
+      if feasible:
+        results.append(ret)
+    ok = bool(results) and not undecided and all(r == want[case] for r in results)
     rep.check(ok, rule, '%s:support(%s)' % (fi.site, case),
               'the support of a %s name must be %s: a composite whose index (or '
               'base) is itself composite otherwise reports too small a support, '
               'is admitted into loop/conditional state although a part of it is '
               'not live, and its base is not reserved against helper names' %
               (case, sorted(want.get(case, []))),
-              {'computed': sorted(map(str, ret or []))}, line=fi.node.lineno,
+              {'computed': sorted({str(sorted(map(str, r or []))) for r in results}),
+               'undecided_tests': undecided[:3]}, line=fi.node.lineno,
               witness='table[r.slot] = v inside a loop over r; d[vars_.key] = v')
 
 
